@@ -98,7 +98,7 @@ def client_io(addr, line, timeout=60):
     return s
 
 
-def read_reply(s, timeout=20):
+def read_reply(s, timeout=90):
     """The reply object, or None when nothing (parsable) arrives: an unanswered client is an
     observation (got(r, 0)), not a harness failure."""
     data = b""
@@ -159,7 +159,7 @@ def run_threads(m, rec, n_clients, n_reqs, rng, base_id):
                 s = socket.create_connection(m.addr, timeout=10)
                 time.sleep(delays.random() * 0.002)
                 s.sendall(json.dumps(req).encode() + b"\n")
-                reply = read_reply(s, 20 if m.alive() else 2)
+                reply = read_reply(s, 90 if m.alive() else 2)
             except OSError:
                 reply = None
             rec.emit({"k": "got", "r": rid, "t": 0, "m": reply_owner(rid, kind, st, reply, m.device, allr)})
@@ -313,7 +313,7 @@ def run_tcp_stall(ctx, rng, base_id, timeout_s=2.0, stall_s=3.0, others=4):
         srv = TCPServer("127.0.0.1", 0, proto)
         th = threading.Thread(target=lambda: srv.run(), daemon=True)
         th.start()
-        for _ in range(5000):
+        for _ in range(60000):
             if srv.server is not None or not th.is_alive():
                 break
             time.sleep(0.001)
@@ -364,6 +364,69 @@ def run_tcp_stall(ctx, rng, base_id, timeout_s=2.0, stall_s=3.0, others=4):
             pass
         td.close()
     return events
+
+
+def run_shutdown_with_backlog(ctx, base_id, others=5):
+    """A request ends in a manager shutdown (the device answers a status word outside every known range) while
+    other clients are already connected and waiting. Whatever happens to them - the unchanged manager simply
+    never answers - no two requests may be handled at once and nobody may get someone else's reply."""
+    m = LiveManager(2)
+    rec = Recorder(m)
+    rng = random.Random("shutdown:%d" % ctx.seed)
+    allr = {}
+    try:
+        install_world = m.world
+        state = {"poison": None}
+
+        def hook(w, apdu, idx):
+            if state["poison"] == "armed" and len(apdu) > 1 and apdu[1] == 0x02:
+                state["poison"] = "fired"
+                return ("sw", 0x6F42)
+            return None
+        install_world.fault_hook = hook
+        m.device.exchange_delay = lambda: time.sleep(0.02)
+
+        def client(rid, kind, req, st, delay):
+            time.sleep(delay)
+            try:
+                s = socket.create_connection(m.addr, timeout=10)
+                s.sendall(json.dumps(req).encode() + b"\n")
+                reply = read_reply(s, 15)
+            except OSError:
+                reply = None
+            # an unanswered client of a manager that stopped, or an error reply (the poisoned request's), is not a
+            # foreign reply: only successful replies are attributed
+            if isinstance(reply, dict) and reply.get("errorcode") == 0:
+                rec.emit({"k": "got", "r": rid, "t": 0, "m": reply_owner(rid, kind, st, reply, m.device, allr)})
+        plan = [("blockchainState", 0.0)]                   # keeps the server busy while the others queue up
+        plan.append(("poison", 0.05))
+        for i in range(others):
+            plan.append((rng.choice(["blockchainState", "signerHeartbeat", "sign_hash", "getPubKey"]), 0.08 + 0.01 * i))
+        ths = []
+        for i, (kind, delay) in enumerate(plan):
+            rid = base_id + i + 1
+            k = "sign_hash" if kind == "poison" else kind
+            req, st = make_request(rid, k, rng)
+            allr[rid] = (k, st)
+            ths.append(threading.Thread(target=client, args=(rid, k, req, st, delay)))
+
+        orig = m.proto.handle_request
+
+        def arm(request):
+            # the poisoned request is the second one the manager handles
+            if isinstance(request, dict) and request.get("_verif_id") == base_id + 2:
+                state["poison"] = "armed"
+            return orig(request)
+        m.proto.handle_request = arm
+        for t in ths:
+            t.start()
+        for t in ths:
+            t.join(40)
+        time.sleep(0.3)
+        m.device.exchange_delay = None
+        return rec.take(), state["poison"] == "fired", m.shutdown_calls
+    finally:
+        m.stop()
 
 
 def run(ctx):
@@ -444,6 +507,14 @@ def run(ctx):
         traces.append({"id": tid, "ev": run_tcp_stall(ctx, ctx.rng, 970000)})
         info[tid] = {"scenario": "unpatched TCP transport; one exchange slower than the dongle timeout, 4 clients behind it"}
         res.coverage["tcp_transport_stall_scenarios"] = 1
+        ev_sd, fired, nshut = run_shutdown_with_backlog(ctx, 980000)
+        if not fired:
+            raise core.MachineryError("shutdown scenario: the poisoned exchange was never reached")
+        tid = len(traces) + 1
+        traces.append({"id": tid, "ev": ev_sd})
+        info[tid] = {"scenario": "a request ends in a manager shutdown with 5 clients connected and waiting",
+                     "shutdown_calls": nshut}
+        res.coverage["shutdown_with_backlog_scenarios"] = 1
     finally:
         m.stop()
         slow_thread.join(200)
